@@ -86,6 +86,7 @@ class C04Oracle(Oracle):
                                   f"{kind} did not address {g.name}{w} but its volume changed from "
                                   f"{float.fromhex(self.prev_hex[li][k])} to {float.fromhex(now_hex[li][k])}")
         steps = pl["steps"]
+        on_grid = all(frac(st[3]).denominator <= 4 for st in steps)
         if out.ok:
             # accepted call: every requested element is booked, whatever the limits say
             for st in steps:
@@ -94,7 +95,8 @@ class C04Oracle(Oracle):
                 g = sess.geos[li]
                 exp = self.ledger.vol[li][w]
                 got = frac(now[li][w]) if now[li][w] == now[li][w] else None
-                if got is None or abs(got - exp) > tol(self.world, exp) * (1 if kind in ("add", "remove", "aspirate", "dispense") else max(1, len(steps))):
+                t = tol(self.world, exp) if on_grid else Fraction(1, 10 ** 9) * max(1, abs(exp))
+                if got is None or abs(got - exp) > t * (1 if kind in ("add", "remove", "aspirate", "dispense") else max(1, len(steps))):
                     self.fail("C04.ledger", i, op, "ok",
                               f"{g.name}{w}: reported {now[li][w]!r}, ledger (initial + added - removed) {float(exp)!r}",
                               {"well": list(w)})
